@@ -16,7 +16,10 @@
 // E module in a sub-directory; F section shapes (which keys a section consists of x where it is written);
 // G ignore_only maps with overlapping keys x document order x map iteration seed; H comment ignores on
 // every kind of statement an annotation is located on (file options, nested options, imports, rpcs, ...);
-// I documentation x directive line interleavings, compared with the image without the directive lines.
+// I documentation x directive line interleavings, compared with the image without the directive lines;
+// J configurations with check plugins (which delegates own the selected rules); K how the image was obtained
+// (source input or built image x --path / --exclude-path: which files are import-only); L every deprecated ID
+// in every ID position on annotations, against the documented replacement table (doctable.go).
 package c06
 
 import (
@@ -73,6 +76,7 @@ type env struct {
 	tab    map[string]*tables // version + "/" + kind
 	cnt    *counters
 	caseNo atomic.Int64
+	plug   pluginState
 	// mapSeed >= 0: the process-wide map iteration seed in force (part G); written only between parallel loops.
 	mapSeed int
 }
@@ -86,6 +90,17 @@ func (e *env) mapSeedPtr() *int {
 }
 
 func (e *env) tables(version, kind string) *tables { return e.tab[version+"/"+kind] }
+
+// tablesFor: the tables of the configuration's version and type, extended by the rules and categories of
+// its check plugins (taken from the harness' own plugin catalogue) and, with disable_builtin, without the
+// built-in ones.
+func (e *env) tablesFor(c cfg) *tables {
+	t := e.tables(c.Version, c.Type)
+	if len(c.Plugins) == 0 && !c.DisableBuiltin {
+		return t
+	}
+	return e.pluginTables(t, c.Plugins, c.DisableBuiltin)
+}
 
 // observation of one configuration on the implementation.
 type observation struct {
@@ -108,6 +123,10 @@ func (e *env) observe(c cfg, image, against bufimage.Image) observation {
 		return observation{ParseErr: fmt.Sprintf("expected one module config, got %d", len(mcs))}
 	}
 	var anns []bufx.Annotation
+	if len(c.Plugins) > 0 {
+		// check plugins: the plugin configurations are the ones buf parsed from the `plugins:` key
+		return e.observeWithPlugins(c, y, image, against)
+	}
 	if c.Type == "lint" {
 		anns, err = bufx.Lint(e.ctx, mcs[0].LintConfig(), image)
 	} else {
@@ -133,7 +152,16 @@ func (e *env) configuredRules(c cfg) ([]string, error) {
 	if c.Type == "breaking" {
 		cc = mc.BreakingConfig()
 	}
-	rules, err := e.client.ConfiguredRules(e.ctx, ruleTypeOf(c.Type), cc)
+	var rules []bufcheck.Rule
+	if len(c.Plugins) > 0 {
+		pc, perr := e.pluginClient()
+		if perr != nil {
+			return nil, perr
+		}
+		rules, err = pc.ConfiguredRules(e.ctx, ruleTypeOf(c.Type), cc, bufcheck.WithPluginConfigs(y.PluginConfigs()...))
+	} else {
+		rules, err = e.client.ConfiguredRules(e.ctx, ruleTypeOf(c.Type), cc)
+	}
 	if err != nil {
 		return nil, err
 	}
@@ -180,6 +208,8 @@ func replay(raw json.RawMessage) (string, bool) {
 		partANesting(e)
 	case "deprecated":
 		partADeprecated(e)
+	case "deprecated-table":
+		partADeprecatedTable(e)
 	case "comment-line":
 		only := stringSet{}
 		for _, id := range c.Use {
@@ -198,7 +228,17 @@ func replay(raw json.RawMessage) (string, bool) {
 			defer setMapSeed(0, false)
 		}
 		var sc *scene
-		if c.Type == "lint" {
+		if vc.Derivation != nil {
+			var ok bool
+			if c.Type == "lint" {
+				sc, _, ok = e.derivedLintScene(*vc.Derivation, []string{c.Version})
+			} else {
+				sc, _, ok = e.derivedBreakingScene(*vc.Derivation, []string{c.Version})
+			}
+			if !ok {
+				return "the derived image does not build or a rule on its own reports an import-only file", r.ViolationCount() > 0
+			}
+		} else if c.Type == "lint" {
 			var ok bool
 			if c.ModuleDir != "" {
 				sc, ok = e.lintSceneIn(c.ModuleDir, vc.Comments, []string{c.Version}, nil)
@@ -214,6 +254,9 @@ func replay(raw json.RawMessage) (string, bool) {
 			if !ok {
 				return "fixture does not build", r.ViolationCount() > 0
 			}
+		}
+		if len(c.Plugins) > 0 && !e.addPluginSingles(sc) {
+			return "a plugin rule cannot be run on its own", r.ViolationCount() > 0
 		}
 		e.judge(sc, c, "R")
 	}
@@ -234,6 +277,8 @@ type violationCase struct {
 	Observed []string          `json:"observed,omitempty"`
 	Detail   string            `json:"detail,omitempty"`
 	MapSeed  *int              `json:"map_iteration_seed,omitempty"` // part G: runtime map iteration seed of the case
+	// part K: how the image(s) of the case were obtained (nil: workspace built with --path a --path b)
+	Derivation *derivation `json:"image_derivation,omitempty"`
 }
 
 func keysOf(as []bufx.Annotation) []string {
@@ -266,8 +311,15 @@ func run(r *evid.Run) {
 		"(the behaviour of the pinned tree, taken as the meaning of 'suppressed by ignore'); which old file a moved declaration comes from is fixture knowledge")
 	r.Assume("v2: a module-level lint/breaking section with at least one key replaces the workspace-level section as a whole, one without keys leaves it in force; " +
 		"`disallow_comment_ignores: false` spells out the default and does not count as a key")
-	r.Assume("built-in rules only (no plugins, disable_builtin off); one module at '.' or in one sub-directory; ignore_unstable_packages off; " +
-		"rule/category tables (categories, default flag, deprecation, replacements) are taken from Client.AllRules/AllCategories and are not themselves checked against documentation, except MINIMAL<=BASIC<=STANDARD and deprecated==replacement which are checked on observed results")
+	r.Assume("one module at '.' or in one sub-directory; ignore_unstable_packages off; " +
+		"rule/category tables of the built-in rules (categories, default flag, deprecation flag) are taken from Client.AllRules/AllCategories and are not themselves checked against documentation, except MINIMAL<=BASIC<=STANDARD (checked on observed results); " +
+		"the REPLACEMENTS of a deprecated ID are not taken from buf: they are the documented ones (doctable.go, transcribed from the changelog / rule documentation), and what buf publishes as replacements is judged against them")
+	r.Assume("check plugins (part J): two in-process plugins whose rule tables are the harness' own catalogue; with plugins configured an empty `use` selects the default rules of every check delegate " +
+		"(the built-in rules unless disable_builtin, and every plugin); with disable_builtin the built-in IDs are unknown IDs; the plugins' lint rules skip import-only files themselves " +
+		"(buf applies no import filter of its own to lint annotations, so a plugin rule that reports on an import-only file is passed through: observed, not judged)")
+	r.Assume("image derivations (part K): which files of a derived image are targets follows from the path lists alone: source input = files under a --path (all without --path) and under no --exclude-path; " +
+		"filtering a built image = with --path the files of the image under a --path and under no --exclude-path, with --exclude-path alone the image's own non-import files under no --exclude-path; every other file of the result is import-only; " +
+		"path lists are not nested in each other except one excluded file below an included directory")
 	r.Assume("an empty selection (e.g. use: [X], except: [X], or only a deprecated rule without replacement) is outside the property: buf answers with a system error 'resultRules was empty'; counted, not judged")
 	r.Assume("a comment ignore on a oneof is not on a descriptor ancestor of the oneof's fields; whether it suppresses field rules is counted as unspecified")
 
@@ -310,6 +362,9 @@ func run(r *evid.Run) {
 		{"E_subdir_module", func() { partE(e) }},
 		{"F_section_shapes", func() { partF(e, vnames) }},
 		{"G_overlapping_ignore_only_keys", func() { partG(e, vnames) }},
+		{"J_check_plugins", func() { partJ(e) }},
+		{"K_image_derivations", func() { partK(e, vnames) }},
+		{"L_deprecated_ids_on_annotations", func() { partL(e) }},
 		{"A_selection", func() { partA(e) }},
 		{"D_breaking_grid", func() { partD(e, vnames) }},
 		{"B_lint_grid", func() { partB(e, vnames) }},
@@ -339,7 +394,7 @@ func run(r *evid.Run) {
 		clauses[k] = e.cnt.m[k]
 	}
 	r.Set("clause_counts", clauses)
-	for _, need := range requiredClauses {
+	for _, need := range append(append(append([]string{}, requiredClauses...), pluginClausesRequired...), extraClausesRequired...) {
 		if e.cnt.m[need] == 0 {
 			r.Incomplete("clause never exercised: " + need)
 		}
@@ -457,6 +512,7 @@ func partA(e *env) {
 	partAUnknown(e)
 	partANesting(e)
 	partADeprecated(e)
+	partADeprecatedTable(e)
 	partADefaults(e)
 }
 
